@@ -1,5 +1,6 @@
 import Gms.Driver.Proto
 import Gms.Model.Fulltext
+import Gms.Model.FulltextEditor
 open Gms.Proto Gms.Fulltext
 
 /-
@@ -7,7 +8,7 @@ rune  : <cp>.<len>.<ch 0|1>            (what Go's range loop delivers + isCharac
 case  : (tok <ci 0|1> (d rune …))      obs: w=((<word hex> <pos>) …) u=((<word hex> <count>) …) n=<unique count>
         (hist <ci 0|1> <keyed 0|1> (ops op …) (queries (d rune …) …))
           op = (ins id col …) | (del id) | (upd id col …) | (rekey id new);  col = null | (d rune …)
-          obs: t=(id …) mw=((id …) …) me=((id …) …) dc=(…) gc=(…) rc=(…) pos=(…)      (every list sorted as strings)
+          obs: t=((id col …) …) mw=((id …) …) me=((id …) …) dc=(…) gc=(…) rc=(…) pos=(…)      (every list sorted as strings)
 -/
 
 def minLen : Nat := 3
@@ -73,6 +74,59 @@ def plist (l : List String) : String := "(" ++ " ".intercalate l ++ ")"
 
 def docOK (d : List R) : Bool := d.all fun r => !(r.ch && isApos r)
 
+/-! ### Index tables as maintained by the editor model (Gms/Model/FulltextEditor.lean) -/
+
+/-- What identifies a row in DOC_COUNT / POSITION: the primary key, or the row hash (= content). -/
+inductive RKey where
+  | id (n : Nat)
+  | hash (r : Row)
+  deriving DecidableEq
+
+def rkOf (keyed : Bool) (r : Row) : RKey := if keyed then .id r.id else .hash r
+
+abbrev IdxT := Idx (List Nat) RKey
+
+structure EdState where
+  rows : List Row      -- parent table
+  ix : IdxT            -- pseudo-index tables
+  seen : List Row      -- every row ever handed to the editor (candidates for dumping the tables)
+
+/-- Row-level editor calls of a DML statement (engine: one `Delete` / `Update` per matching row,
+`Insert` per new row). -/
+def edOpsOf (rows : List Row) : Op → List EdOp
+  | .ins r => [.ins r]
+  | .del k => (targets k rows).map .del
+  | .upd k cols => (targets k rows).map fun r => .upd r { r with cols := cols }
+  | .rekey k n => (targets k rows).map fun r => .upd r { r with id := n }
+
+def runOps (key : Word → List Nat) (keyed : Bool) (ix : IdxT) : List EdOp → Option IdxT
+  | [] => some ix
+  | op :: ops =>
+    match edStep key (rkOf keyed) minLen maxLen ix op with
+    | some ix' => runOps key keyed ix' ops
+    | none => none
+
+def newRows : EdOp → List Row
+  | .ins r => [r]
+  | .del _ => []
+  | .upd _ n => [n]
+
+/-- One DML statement: the reference semantics decides which rows change (duplicate-key failures
+included); the editor calls run on the index; if one of them fails the statement is discarded. -/
+def stmt (key : Word → List Nat) (keyed : Bool) (s : EdState) (op : Op) : EdState :=
+  let rows' := applyOp keyed s.rows op
+  if rows' == s.rows && (match op with | .ins _ => true | _ => false) then s   -- rejected INSERT (duplicate key)
+  else
+    let eops := edOpsOf s.rows op
+    -- a key change that is rejected by the table leaves everything as it was
+    if (match op with | .rekey _ _ => rows' == s.rows | _ => false) then s
+    else match runOps key keyed s.ix eops with
+      | some ix' => { rows := rows', ix := ix', seen := s.seen ++ eops.flatMap newRows }
+      | none => s
+
+def dedupS (l : List String) : List String :=
+  l.foldl (fun acc x => if acc.contains x then acc else acc ++ [x]) []
+
 def handle (p : List Sexp) : String :=
   match p with
   | [.list [.atom "tok", .atom ci, d]] =>
@@ -95,6 +149,11 @@ def handle (p : List Sexp) : String :=
       let keyed := keyed == "1"
       let key := keyOf ci
       let ids (l : List Row) := plist (sortS (l.map fun r => toString r.id))
+      let colS (c : Option (List R)) : String := match c with
+        | none => "null"
+        | some d => wordHex d
+      let tbl (l : List Row) := plist (sortS (l.map fun r =>
+        "(" ++ " ".intercalate (toString r.id :: r.cols.map colS) ++ ")"))
       let idS (id : Nat) := if keyed then toString id ++ " " else ""
       -- observation of a table state; `whereImpl`: WHERE form as implemented / as specified
       let obsOf (rows : List Row) (whereImpl : Bool) : String :=
@@ -109,13 +168,43 @@ def handle (p : List Sexp) : String :=
           "(" ++ toString e.1 ++ " " ++ toString e.2 ++ ")")
         let pos := sortS ((specPosition minLen maxLen keyed rows).map fun e =>
           "(" ++ wordHex e.1 ++ " " ++ idS e.2.1 ++ toString e.2.2 ++ ")")
-        "t=" ++ ids rows ++ " mw=" ++ plist mw ++ " me=" ++ plist me ++ " dc=" ++ plist dc ++ " gc=" ++ plist gc
+        "t=" ++ tbl rows ++ " mw=" ++ plist mw ++ " me=" ++ plist me ++ " dc=" ++ plist dc ++ " gc=" ++ plist gc
           ++ " rc=" ++ plist rc ++ " pos=" ++ plist pos
       let rowsI := ops.foldl (applyOpImpl minLen maxLen keyed) []
       let rowsS := ops.foldl (applyOp keyed) []
-      let impl := obsOf rowsI true
+      -- Impl model of the index tables: the editor model run over the history
+      let st := ops.foldl (stmt key keyed) { rows := [], ix := Idx.empty, seen := [] }
+      let cand := st.rows ++ st.seen
+      let rkS (q : RKey) : String := match q with
+        | .id n => toString n ++ " "
+        | .hash _ => ""
+      let firstBy {α β : Type} [BEq β] (f : α → β) (l : List α) : List α :=
+        (l.foldl (fun (acc : List α × List β) x => if acc.2.contains (f x) then acc else (acc.1 ++ [x], acc.2 ++ [f x])) ([], [])).1
+      let dcI := firstBy (fun (e : List Nat × RKey × String) => (e.1, e.2.1))
+        (cand.flatMap fun r => (uniq key minLen r).filterMap fun e =>
+          let n := st.ix.dc e.2.1 (rkOf keyed r)
+          if n == 0 then none else some (e.2.1, rkOf keyed r, "(" ++ wordHex e.1 ++ " " ++ rkS (rkOf keyed r) ++ toString n ++ ")"))
+      let gcI := firstBy (fun (e : List Nat × String) => e.1)
+        (cand.flatMap fun r => (uniq key minLen r).filterMap fun e =>
+          let n := st.ix.gc e.2.1
+          if n == 0 then none else some (e.2.1, "(" ++ cpsHex e.2.1 ++ " " ++ toString n ++ ")"))
+      let rcI := (dedup cand).filterMap fun r =>
+        let n := st.ix.rc r
+        if n == 0 then none else some ("(" ++ toString n ++ " " ++ toString (uniq key minLen r).length ++ ")")
+      let posI := firstBy (fun (e : (Word × RKey × Nat) × String) => e.1)
+        (cand.flatMap fun r => (tokenize minLen (docOf r)).filterMap fun t =>
+          if st.ix.pos t.1 (rkOf keyed r) t.2 then
+            some ((t.1, rkOf keyed r, t.2), "(" ++ wordHex t.1 ++ " " ++ rkS (rkOf keyed r) ++ toString t.2 ++ ")")
+          else none)
+      let implIdx := " dc=" ++ plist (sortS (dcI.map (·.2.2))) ++ " gc=" ++ plist (sortS (gcI.map (·.2)))
+        ++ " rc=" ++ plist (sortS rcI) ++ " pos=" ++ plist (sortS (posI.map (·.2)))
+      let implFull := obsOf rowsI true
+      -- the index part of the Impl observation comes from the editor model, the rest from the table model
+      let cut (o : String) : String := (o.splitOn " dc=").headD ""
+      let impl := cut implFull ++ implIdx
       let spec := obsOf rowsS false
-      if impl == spec then answer impl
+      if st.rows != rowsI then answer "model-inconsistent: editor model and applyOpImpl disagree on the table" spec "no_region"
+      else if impl == spec then answer impl
       else
         let reg :=
           if rStuck minLen maxLen keyed [] ops then "dml_rejected_for_row_with_overlong_word"
